@@ -425,7 +425,6 @@ std::string read_value(reader &rd, std::string const &last_result, std::string c
 
 extern "C" int LLVMFuzzerInitialize(int *, char ***)
 {
-  trace = getenv("FZ_SCRIPT_TRACE") != nullptr;
   if (getenv("FZ_SCRIPT_STATS")) stats_dir = getenv("FZ_SCRIPT_STATS");
   build_values();
   // scratch directory, created once
@@ -451,6 +450,7 @@ extern "C" int LLVMFuzzerInitialize(int *, char ***)
     delete_engine(px);
     clean_scratch();
   }
+  trace = getenv("FZ_SCRIPT_TRACE") != nullptr;   // (the reference epilogue above is not traced)
   if (getenv("FZ_SCRIPT_DUMP")) {
     std::string s = "{\"commands\":[";
     for (size_t i = 0; i < commands.size(); i++) {
